@@ -62,7 +62,8 @@ def parseBackend (s : String) : Option (Backend × EofStyle × Bool) :=
   | "cache" => some (.mem, .eager, false)
   | _ => none
 
-def nameOk (s : String) : Bool := !s.isEmpty && s.all fun c => c.isAlphanum
+def nameOk (s : String) : Bool :=
+  !s.isEmpty && (s.all fun c => c.isAlphanum || c == '.' || c == '~') && (s.any fun c => c.isAlphanum)
 
 def parsePath (s : String) : Option Path :=
   if s = "-" then some [] else
